@@ -22,7 +22,8 @@ Definition qeval (s : Queue.st) (o : qop) : Queue.st :=
        | QExt => doa s AExt
        | QStep adv =>
            match dpc s with
-           | Woken => doa (exts (N.to_nat adv) (doa s ARead)) APeek
+           | Woken => exts (N.to_nat adv) (doa s ARead)
+           | ReadH _ => doa (exts (N.to_nat adv) s) APeek
            | Hold _ _ => doa s AAdd
            | Tried _ _ _ => doa s AClear
            | _ => s
